@@ -14,9 +14,9 @@ const (
 	rEnd
 	rBeginFile
 	rEndFile
-	rPattern  // $.p { ... next / exit ... }
-	rAlways   // pattern-less rule
-	rBeginX   // BEGIN { ...; exit }
+	rPattern // $.p { ... next / exit ... }
+	rAlways  // pattern-less rule
+	rBeginX  // BEGIN { ...; exit }
 	nRuleKinds
 )
 
